@@ -2,6 +2,7 @@ package rules
 
 import (
 	"fmt"
+	"go/ast"
 	"go/constant"
 	"go/token"
 	"go/types"
@@ -474,6 +475,12 @@ func runC13(c *core.Ctx) error {
 	checkHexEncode(c, prog, r5)
 	r6 := c.NewRule("R13.6", "S1", "json.formatDuration writes the sign on every non-zero path", 2)
 	checkDurationSign(c, prog, r6)
+	checkCodecPrecedence(c, "R13.8")
+	if irProg, err := c.Program("./gen/ir"); err == nil {
+		checkFormatAliasAgreement(c, irProg)
+	} else {
+		return err
+	}
 	return nil
 }
 
@@ -898,5 +905,161 @@ func checkDurationSign(c *core.Ctx, prog *core.Prog, r *core.Rule) {
 	}
 	if okAll {
 		r.Pass("every non-zero return of formatDuration passes the sign test")
+	}
+}
+
+// checkFormatAliasAgreement (R13.7): the JSON side (ir.JSON.Format) and the URI
+// side (ir.Type.uriFormat) each choose a codec from the schema's format name.
+// Format names that are aliases on the JSON side (they select the same codec,
+// e.g. "unix" and "unix-seconds") denote one wire representation; the URI
+// side must treat them alike: both get the same codec, or both fall through to
+// the type's default. A name known to only one spelling on the URI side sends a
+// parameter in a representation its own JSON sibling (and the peer) does not
+// use.
+func checkFormatAliasAgreement(c *core.Ctx, prog *core.Prog) {
+	r := c.NewRule("R13.7", "S1", "format names that are aliases for the JSON codec are aliases for the URI codec; every time.Time format has a URI case", 5)
+	irp := prog.PkgBy[pkgIR]
+	if irp == nil {
+		r.Undecided("load", "-", "gen/ir not loaded")
+		return
+	}
+	var jsonFmt, uriFmt *ast.FuncDecl
+	mapLits := map[string]*ast.CompositeLit{}
+	for _, f := range irp.Syntax {
+		for _, d := range f.Decls {
+			switch x := d.(type) {
+			case *ast.FuncDecl:
+				if x.Recv == nil || x.Body == nil {
+					continue
+				}
+				switch {
+				case x.Name.Name == "Format" && astRecvName(x.Recv.List[0].Type) == "JSON":
+					jsonFmt = x
+				case x.Name.Name == "uriFormat" && astRecvName(x.Recv.List[0].Type) == "Type":
+					uriFmt = x
+				}
+			case *ast.GenDecl:
+				for _, sp := range x.Specs {
+					if vs, ok := sp.(*ast.ValueSpec); ok {
+						for i, id := range vs.Names {
+							if i < len(vs.Values) {
+								if cl, ok := vs.Values[i].(*ast.CompositeLit); ok {
+									mapLits[id.Name] = cl
+								}
+							}
+						}
+					}
+				}
+			}
+		}
+	}
+	if jsonFmt == nil || uriFmt == nil {
+		r.Undecided("anchor:Format/uriFormat", "-", "ir.JSON.Format or ir.Type.uriFormat not found")
+		return
+	}
+	jt := switchTerms(jsonFmt)
+	ut := switchTerms(uriFmt)
+	if ut == nil {
+		ut = map[string]map[string]bool{}
+	}
+	// table lookups: `if v, ok := table[s.Format]; ok { return v }`
+	ast.Inspect(uriFmt.Body, func(n ast.Node) bool {
+		ix, ok := n.(*ast.IndexExpr)
+		if !ok {
+			return true
+		}
+		id, ok := ix.X.(*ast.Ident)
+		if !ok {
+			return true
+		}
+		cl := mapLits[id.Name]
+		if cl == nil {
+			return true
+		}
+		for _, e := range cl.Elts {
+			kv, ok := e.(*ast.KeyValueExpr)
+			if !ok {
+				continue
+			}
+			k, ok := strLit(kv.Key)
+			if !ok {
+				continue
+			}
+			if ut[k] == nil {
+				ut[k] = map[string]bool{}
+			}
+			ut[k][types.ExprString(kv.Value)] = true
+		}
+		return true
+	})
+	if len(jt) == 0 {
+		r.Undecided("anchor:format-switch", c.Pos(jsonFmt.Pos()), "no switch over format labels recognised in JSON.Format")
+		return
+	}
+	// alias groups of the JSON side
+	groups := map[string][]string{}
+	for l, t := range jt {
+		groups[termKey(t)] = append(groups[termKey(t)], l)
+	}
+	var keys []string
+	for k := range groups {
+		keys = append(keys, k)
+	}
+	sort.Strings(keys)
+	n := 0
+	for _, k := range keys {
+		g := groups[k]
+		if len(g) < 2 {
+			continue
+		}
+		sort.Strings(g)
+		n++
+		// generic terms such as "String" + Capitalize(f) differ per label by construction: compare presence only
+		first, firstOK := ut[g[0]]
+		same := true
+		for _, l := range g[1:] {
+			t, ok := ut[l]
+			if ok != firstOK {
+				same = false
+			}
+			if ok && firstOK && termKey(t) != termKey(first) && !strings.Contains(termKey(t), "\"") {
+				same = false
+			}
+		}
+		key := "format-alias:" + strings.Join(g, "/")
+		if same {
+			r.Pass(fmt.Sprintf("%s: JSON codec %s; URI side treats the names alike", key, k))
+		} else {
+			var desc []string
+			for _, l := range g {
+				if t, ok := ut[l]; ok {
+					desc = append(desc, fmt.Sprintf("%q → %s", l, termKey(t)))
+				} else {
+					desc = append(desc, fmt.Sprintf("%q → (type default)", l))
+				}
+			}
+			r.Fail(key, c.Pos(uriFmt.Pos()), fmt.Sprintf("the format names %v select the same JSON codec (%s) but ir.Type.uriFormat treats them differently: %s — a parameter declared with one spelling is sent in another wire representation", g, k, strings.Join(desc, ", ")))
+		}
+	}
+	if n == 0 {
+		r.Undecided("format-alias:none", c.Pos(jsonFmt.Pos()), "JSON.Format has no two labels with the same codec: the alias groups the rule looks for are gone")
+	}
+	// the formats carried by time.Time share one Go type and therefore one default URI codec: each of them
+	// needs its own case on the URI side, or it is sent in the default representation
+	var labels []string
+	for l := range jt {
+		labels = append(labels, l)
+	}
+	sort.Strings(labels)
+	for _, l := range labels {
+		k := termKey(jt[l])
+		if !(strings.Contains(k, "Unix") || k == `"Date"` || k == `"Time"` || k == `"DateTime"`) {
+			continue
+		}
+		if _, ok := ut[l]; ok {
+			r.Pass(fmt.Sprintf("format-time:%s has a URI codec case", l))
+		} else {
+			r.Fail("format-time:"+l, c.Pos(uriFmt.Pos()), fmt.Sprintf("format %q selects the JSON codec %s for a time.Time value, but ir.Type.uriFormat has no case for it: parameters use the type's default text form (conv.TimeToString), not the declared one", l, k))
+		}
 	}
 }
